@@ -384,7 +384,7 @@ def run_check(tier, seed):
             if 'pt' in hh and 'vfs' in hh and hh['k'] % len(cfgs) == 0:
                 ivalid = [True]; hvalid = []
                 for j, (o, a, b) in enumerate(zip(hh['ops'], hh['pt']['ops'], hh['vfs']['ops'])):
-                    ka = {k: v for k, v in a['r'].items() if k not in ('ino', 'dev', 'ents')}; kb = {k: v for k, v in b['r'].items() if k not in ('ino', 'dev', 'ents')}
+                    ka = {k: v for k, v in a['r'].items() if k not in ('ino', 'dev', 'ents', 'atime', 'mtime', 'now')}; kb = {k: v for k, v in b['r'].items() if k not in ('ino', 'dev', 'ents', 'atime', 'mtime', 'now')}
                     if refs_valid(o, ivalid, hvalid) and ka != kb:
                         broken.append({'kind': 'correspondence', 'name': 'PassthroughFs behind a Vfs answers differently from the standalone one',
                                        'history': hh['k'], 'request': op_line(o), 'standalone': a['raw'], 'behind_vfs': b['raw']}); break
